@@ -135,10 +135,11 @@ def keep(pid, m):
     d = f"/verif/seeded/{pid}-{m}"
     os.makedirs(d, exist_ok=True)
     for f in os.listdir(s):
-        if f in ("patch.diff", "meta.json", "demo_test.go", "demo.md", "demo_patched.txt", "demo_clean.txt"):
-            shutil.copy(f"{s}/{f}", f"{d}/{f}")
+        if f.endswith((".diff", ".go", ".md", ".json")) or (f.startswith("demo") and f.endswith(".txt")):
+            if os.path.getsize(f"{s}/{f}") < 200_000 and f != "x.diff":
+                shutil.copy(f"{s}/{f}", f"{d}/{f}")
     for f in os.listdir(REC):
-        if f.startswith(f"{pid}-{m}."):
+        if f.startswith(f"{pid}-{m}.") and f.endswith(".json"):
             shutil.copy(f"{REC}/{f}", f"{d}/{f[len(pid)+len(m)+2:]}")
     print("kept", d)
 
